@@ -562,17 +562,27 @@ impl<Db: Database> StorageManager<Db> {
         if self.is_transaction_active() {
             let transaction_records = self.transaction.get_users_states(usernames, flag);
             for (label, value_state) in transaction_records.into_iter() {
-                if let Some((epoch, _)) = data.get(&label) {
-                    // there is an existing DB record, check if we should updated it from the transaction log
-                    if let Some(updated_record) =
-                        Self::compare_db_and_transaction_records(*epoch, value_state, flag)
-                    {
-                        data.insert(label, (*epoch, updated_record.value));
+                if let Some((version, _)) = data.get(&label) {
+                    // there is an existing DB record, check if we should updated it from the transaction log.
+                    // The bulk query only returns versions, which grow together with epochs for a given
+                    // user, so versions are compared in place of epochs here.
+                    let transaction_version = value_state.version;
+                    let db_version = *version;
+                    let take_transaction_record = match flag {
+                        ValueStateRetrievalFlag::SpecificVersion(_)
+                        | ValueStateRetrievalFlag::SpecificEpoch(_) => true,
+                        ValueStateRetrievalFlag::LeqEpoch(_) | ValueStateRetrievalFlag::MaxEpoch => {
+                            transaction_version >= db_version
+                        }
+                        ValueStateRetrievalFlag::MinEpoch => transaction_version <= db_version,
+                    };
+                    if take_transaction_record {
+                        data.insert(label, (transaction_version, value_state.value));
                     }
                 } else {
                     // there is no db-equivalent record, but there IS a record in the transaction log.
                     // Take the transaction log value
-                    data.insert(label, (value_state.epoch, value_state.value));
+                    data.insert(label, (value_state.version, value_state.value));
                 }
             }
         }
